@@ -172,6 +172,7 @@ class World:
         self.freed = set()       # ids that were freed at some point
         self.touch = {}          # id -> class of the operation that last released / rejected it (names the bucket)
         self.cur = "?"
+        self.suspects = set()    # ids released / rejected by the current step: probed right after it
         self.pending_list_rm = False
         self.pending_reject = False
         self.nt = set()
@@ -232,6 +233,7 @@ class World:
             del self.used[i]
             self.freed.add(i)
             self.touch[i] = self.cur
+            self.suspects.add(i)
         del self.contained[it.ids[0]]
         self.removed.append(it)
         if it.kind in ("sign", "light"):
@@ -249,6 +251,7 @@ class World:
                 for i in sorted(hanging):
                     if self.used.get(i) == kind:
                         self.m_remove(self.contained[i])
+                        self.ctx.label("rm:lanelet:hanging-%s-removed" % kind)
         for it in items:
             self.m_remove(it)
 
@@ -319,9 +322,25 @@ class World:
                           "%s probe: a copy of the scenario rejects a new object with id %d although no contained "
                           "object uses it (reservation leaked by: %s)" % (why, i, self.origin(i)))
 
+    def probe_suspects(self):
+        """Targeted probe right after a step that released ids or rejected an add: every such id that no contained
+        object uses must be accepted by a copy of the scenario (attributes a leak to the operation that caused it)."""
+        sus = sorted(i for i in self.suspects if i not in self.used)
+        self.suspects = set()
+        if not sus:
+            return
+        cp = copy.deepcopy(self.sc)
+        self.ctx.label("probe-after-step")
+        for i in sus:
+            if not self.accepts(cp, i):
+                self.fail("leaked-id:after-" + self.origin(i),
+                          "a copy of the scenario rejects a new object with id %d right after the step that released / "
+                          "rejected it (%s) although no contained object uses it" % (i, self.origin(i)))
+
     def rejected_ids(self, ids, kind):
         for i in ids:
             if i not in self.used:
+                self.suspects.add(i)
                 self.touch[i] = "rejected-%s:%s" % ("add" if self.cur in ("add", "readd", "add_list", "gen")
                                                     else self.cur, kind)
 
@@ -718,6 +737,7 @@ def check_history(r, ctx):
             w.step = step
             w.apply(op)
             w.verify()
+            w.probe_suspects()
             if (step + 1) % k == 0:
                 w.probe("periodic")
         w.step = len(r["ops"])
